@@ -900,7 +900,7 @@ def obj_mutants(R, vg, cls, body, o, depth=0):
             if v is None:
                 continue
             if ty['k'] == 'int':
-                for z in (IMAX[ty['it']] + 1, IMAX[ty['it']] + 2, 2 ** 64):
+                for z in (IMAX[ty['it']] + 1, IMAX[ty['it']] + 2, 2 ** 64, 253 ** 4, 253 ** 4 + 12345, 253 ** 4 + 253 ** 3 - 1, 253 ** 4 + 253 ** 2 * 254, 254 * 253 ** 3 + 7, 2 ** 32 - 1):
                     yield (f"{cls}.{name} = {z} (at/above the {ty['it']} limit)", with_field(o, name, {'i': z}))
             elif ty['k'] == 'enum':
                 yield (f"{cls}.{name} = {IMAX[ty['it']] + 1} (enum ordinal at the {ty['it']} limit)", with_field(o, name, {'e': ty['name'], 'v': IMAX[ty['it']] + 1}))
